@@ -1351,7 +1351,12 @@ impl PhysicalOperator for HashJoinExec {
                 .completed_partitions
                 .fetch_add(1, std::sync::atomic::Ordering::SeqCst)
                 + 1;
-            if done == self.output_partitions().max(1) {
+            // `%`, not `==`: an operator above may execute this join more than
+            // once (the fused streaming aggregate drains every partition,
+            // aborts on its group budget and re-executes its input). The build
+            // cache — and this counter — outlive the first round, so the last
+            // partition of EVERY complete round emits the unmatched rows.
+            if done % self.output_partitions().max(1) == 0 {
                 let mut unmatched: Vec<(usize, usize)> = Vec::new();
                 for (batch_idx, flags) in matched.iter().enumerate() {
                     for (row_idx, flag) in flags.iter().enumerate() {
